@@ -173,4 +173,57 @@ theorem stepH_refines (key : α → κ) (pool : List (Hash α β κ)) (hp : Pool
         refine ⟨hp.set hni, ?_⟩
         rw [absPool_set', hne]
 
+/-! ### whole histories (fixed model; `Props/C09.lean` restates these for the fact-driven model) -/
+section
+variable (key : α → κ)
+
+/-- every hash of the pool keeps the invariant (no two equal keys, cached index = index of the entries) through ANY
+    history whose literals do not repeat a key -/
+theorem hash_inv (ops : List (HOp α β)) (hl : ∀ op ∈ ops, LitOK key op) (pool : List (Hash α β κ))
+    (hp : PoolInv key pool) : PoolInv key (runHImpl key pool ops).2 := by
+  induction ops generalizing pool with
+  | nil => exact hp
+  | cons op ops ih =>
+    exact ih (fun o ho => hl o (by simp [ho])) _ (stepH_refines key pool hp op (hl op (by simp))).1
+
+/-- every answer of every step (lookups, membership, iteration order) equals the specification's, and so does the
+    content of every hash of the pool afterwards — for ANY history whose literals do not repeat a key -/
+theorem hash_refine_partial (ops : List (HOp α β)) (hl : ∀ op ∈ ops, LitOK key op) (pool : List (Hash α β κ))
+    (hp : PoolInv key pool) :
+    (runHImpl key pool ops).1 = (runHSpec key (absPool pool) ops).1 ∧
+      absPool (runHImpl key pool ops).2 = (runHSpec key (absPool pool) ops).2 := by
+  induction ops generalizing pool with
+  | nil => exact ⟨rfl, rfl⟩
+  | cons op ops ih =>
+    have hs := stepH_refines key pool hp op (hl op (by simp))
+    have := ih (fun o ho => hl o (by simp [ho])) _ hs.1
+    simp only [runHImpl, runHSpec, hs.2]
+    exact ⟨by rw [this.1], this.2⟩
+
+omit [DecidableEq κ] in
+theorem stepHSpec_ne_fault [DecidableEq κ] (pool : List (List (α × β))) (op : HOp α β) : (stepHSpec key pool op).2 ≠ .fault := by
+  cases op <;> simp only [stepHSpec] <;> (repeat' split) <;> simp
+
+/-- no step of such a history ends in a Go runtime fault (slice bounds, index out of range) -/
+theorem hash_no_fault (ops : List (HOp α β)) (hl : ∀ op ∈ ops, LitOK key op) (pool : List (Hash α β κ))
+    (hp : PoolInv key pool) : ∀ o ∈ (runHImpl key pool ops).1, o ≠ .fault := by
+  rw [(hash_refine_partial key ops hl pool hp).1]
+  generalize absPool pool = sp
+  induction ops generalizing sp with
+  | nil => simp [runHSpec]
+  | cons op ops ih =>
+    intro o ho
+    simp only [runHSpec, List.mem_cons] at ho
+    rcases ho with rfl | ho
+    · exact stepHSpec_ne_fault key sp op
+    · exact ih (fun o ho => hl o (by simp [ho])) _ o ho
+
+/-- `valueIndex()` answers exactly the positions: `index k = some i ↔ key entries[i] = k` -/
+theorem hash_index_iff {h : Hash α β κ} (hi : HInv key h) (k : κ) (i : Nat) :
+    GoMap.get (h.valueIndex key).2 k = some i ↔ (h.entries[i]?).map (fun e => key e.1) = some k := by
+  rw [hi.valueIndex.2.2, idx_iff hi.1]
+
+
+end
+
 end Pcore.Coll
